@@ -101,3 +101,19 @@ func (w *patternFlushWriter) Write(p []byte) (n int, err error) {
 
 	return
 }
+
+// flushEveryWriter flushes the underlying buffered writer after every write.
+type flushEveryWriter struct {
+	w interface {
+		io.Writer
+		flusher
+	}
+}
+
+func (w flushEveryWriter) Write(p []byte) (n int, err error) {
+	n, err = w.w.Write(p)
+	if err == nil {
+		err = w.w.Flush()
+	}
+	return
+}
